@@ -119,10 +119,15 @@ def tagParser (kind : String) (s : Str) : Res Line :=
   | some p => p s
   | none => .err
 
-/-- `Tag::try_from`: first matching prefix in source order, else `Unknown` -/
-def dispatchIn : List (String × String) → Str → Res Line
+/-- one test of the chain: `input == PREFIX` for the tags without a value (after the `fix:` that
+stopped look-alikes such as `#EXT-X-ENDLISTX` from being taken for the tag), `starts_with` otherwise -/
+def armMatches (exact : Bool) (pfx : String) (s : Str) : Bool :=
+  if exact then s == pfx.toList else startsWith s pfx.toList
+
+/-- `Tag::try_from`: first matching arm in source order, else `Unknown` -/
+def dispatchIn : List (String × String × Bool) → Str → Res Line
   | [], s => .ok (.unknown s)
-  | (kind, pfx) :: rest, s => if startsWith s pfx.toList then tagParser kind s else dispatchIn rest s
+  | (kind, pfx, exact) :: rest, s => if armMatches exact pfx s then tagParser kind s else dispatchIn rest s
 
 def dispatch (s : Str) : Res Line := dispatchIn Generated.dispatchOrder s
 
